@@ -66,6 +66,9 @@ def build(app):
         rq = app.request
         note('before:path', rq.path)
         app.response.headers['X-Before'] = 'b' + (rq.query.get('m') or '?')
+        if rq.query.get('hc') == '1':
+            app.response.set_cookie('hk', 'h' + (rq.query.get('m') or '?'))
+            raise ValueError('hookboom-' + (rq.query.get('m') or '?'))
 
     @app.on('after_request')
     def after():
